@@ -505,6 +505,52 @@ func gen(r *Rng, tier string, emit func(string)) {
 			}
 		}
 	}
+	// ---- 1b. crafted tiny-r signatures: for r < p - n bit 1 of the recovery byte selects a second nonce point (abscissa r + n).
+	// The four readings recover four different keys; a signature must be accepted for the key of its own reading only, so
+	// flipping bit 1 is not a malleation either.
+	{
+		var rs []*big.Int
+		nr := 6
+		if thorough {
+			nr = 40
+		}
+		for i := 1; i <= nr; i++ {
+			rs = append(rs, big.NewInt(int64(i)))
+		}
+		rs = append(rs, add(eclib.PminusN, -1), eclib.PminusN, add(eclib.PminusN, 1), new(big.Int).Rsh(eclib.PminusN, uint(1+r.Intn(60))))
+		for _, rr := range rs {
+			ss := new(big.Int).Rsh(randScalar(r), 1)
+			if ss.Sign() == 0 {
+				ss = big.NewInt(1)
+			}
+			z := new(big.Int).SetBytes(r.Bytes(32))
+			var keys [4][]byte
+			for v := 0; v < 4; v++ {
+				if q, ok := eclib.Recover(rr, ss, z, v); ok {
+					keys[v] = eclib.Compress(q)
+				}
+			}
+			for v := 2; v < 4; v++ {
+				sig := eclib.Sig65(rr, ss, v)
+				for _, kv := range []int{v, v ^ 2} {
+					if keys[kv] == nil {
+						continue
+					}
+					addr := cipher.AddressFromPubKey(cipher.PubKey(arr33(keys[kv])))
+					emit("pubverify " + Hex(keys[kv]) + " " + Hex(sig) + " " + Hex(b32(z)))
+					emit("addrverify 0 " + Hex(addr.Key[:]) + " " + Hex(sig) + " " + Hex(b32(z)))
+				}
+				if keys[v] == nil && keys[v^2] == nil { // no reading at all: still ask
+					emit("pubverify " + Hex(eclib.Compress(eclib.G)) + " " + Hex(sig) + " " + Hex(b32(z)))
+				}
+			}
+			// and the low readings against the keys of the high ones
+			v := r.Intn(2)
+			if keys[v+2] != nil {
+				emit("pubverify " + Hex(keys[v+2]) + " " + Hex(eclib.Sig65(rr, ss, v)) + " " + Hex(b32(z)))
+			}
+		}
+	}
 	// ---- 2. honest signatures and every algebraic transform of them
 	for i := 0; i < 25*scale; i++ {
 		d := randScalar(r)
